@@ -198,12 +198,25 @@ def move_rule(ctx: Ctx):
         if commits:
             n_commit += 1
             derived = any(ast.dump(c) in states.subtree_dumps(e.call) for e in commits)
+            moves = any(flow.calls_in(e.call, "modify_position") or flow.calls_in(e.call, "tick_distance_traveled_km") for e in commits)
+            if empty_atom is True and not moves and any(flow.calls_in(e.call, "_go_out_of_service_on_empty") for e in commits):
+                # the emptied vehicle is committed where it stood, in the activity the out-of-service helper gave it: it
+                # stops and goes out of service (whether the rest of the helper's state is kept is C17's / C09's clause)
+                ctx.ok("D4", "GD.out-of-energy", "move: an empty vehicle is committed without moving, in the out-of-service helper's activity", fn, p.end)
+                n_oos += 1
+                continue
             ctx.check(empty_atom is False and derived, "D4", "GD.out-of-energy", "move commits the consumed vehicle only when is_empty(consumed) is false", fn, p.end,
                       why_bad=f"path [{p.cond_text()[:300]}] commits a moved vehicle " + ("without testing is_empty on the consumed vehicle" if empty_atom is not False else "that does not derive from the consumed vehicle"),
                       construct="move:commit-without-empty-test")
         elif empty_atom is True:
             n_oos += 1
-            ok = isinstance(p.value, ast.Call) and flow.dump(p.value) == f"_go_out_of_service_on_empty({sim}, {env}, {vid})"
+            call = f"_go_out_of_service_on_empty({sim}, {env}, {vid})"
+            v = p.value
+            ok = isinstance(v, ast.Call) and flow.dump(v) == call
+            if not ok and isinstance(v, ast.Tuple) and len(v.elts) == 2:
+                # the helper's pair handed on slot by slot, or its error alone on a path that found one
+                d0, d1 = flow.dump(v.elts[0]), flow.dump(v.elts[1])
+                ok = d0 == f"{call}[0]" and d1 in (f"{call}[1]", "None")
             ctx.check(ok, "D4", "GD.out-of-energy", "move: an empty vehicle is sent out of service instead of moving on", fn, p.end,
                       why_bad=f"returns {flow.dump(p.value)[:120]}", construct="move:empty-branch")
     if n_commit < 1:
@@ -216,6 +229,9 @@ def move_rule(ctx: Ctx):
     for p in flow.paths(g.node):
         if p.kind == "return" and isinstance(p.value, ast.Call) and getattr(p.value.func, "attr", "") == "enter":
             ok = flow.dump(p.value.func.value) == f"OutOfService.build({g.params[2]})"
+        elif p.kind == "return" and isinstance(p.value, ast.Call) and getattr(p.value.func, "attr", getattr(p.value.func, "id", "")) == "transition_previous_to_next" \
+                and len(p.value.args) >= 4:
+            ok = flow.dump(p.value.args[3]) == f"OutOfService.build({g.params[2]})"  # through the generic transition: same target
     ctx.check(ok, "D4", "GD.out-of-energy", "_go_out_of_service_on_empty enters OutOfService for that vehicle", g, why_bad="target state changed", construct="_go_out_of_service_on_empty:target")
 
 
